@@ -542,8 +542,13 @@ def run_check_y(ctx, pg):
             jobs.append(('domain', name, L, dists[0][0], dists[0][1], None, None))
             ops.append('C07 domain %s %d' % (name, L))
     outs = ctx.driver.run(ops)
-    for (kind, name, L, dname, dist, arr, shape), out in zip(jobs, outs):
-        link = LINKS[name]()
+    # a link object carries no state: the verdict for (targets, distribution) must not depend on which distributions the
+    # same object has been paired with before — every other job re-uses one long-lived link object per link name, across
+    # distributions and numbers of trials (a model keeps its link object when its distribution is replaced)
+    shared = {name: LINKS[name]() for name in LINK_NAMES}
+    for jidx, ((kind, name, L, dname, dist, arr, shape), out) in enumerate(zip(jobs, outs)):
+        link = shared[name] if jidx % 2 else LINKS[name]()
+        ctx.count('check_y: link object', 'shared across jobs' if jidx % 2 else 'fresh')
         if kind == 'domain':
             try:
                 d = utils.get_link_domain(link, dist)
